@@ -47,13 +47,14 @@ PROPS = {
     },
     "C14": {
         "rules": [labels.rule_stride, labels.rule_jtorder, labels.rule_label, codegen.rule_isel("x86_64"), codegen.rule_isel("aarch64"),
-                  codegen.rule_isel("rv64"), hygiene.rule_seed, typing_rules.rule_keyed],
+                  codegen.rule_isel("rv64"), hygiene.rule_seed, typing_rules.rule_tyrule],
         "text": "Well-formedness of the emitted assembly decided structurally: (R-LABEL) every label-defining site has one of five "
                 "shapes whose languages are pairwise disjoint given the grammar's identifier classes, counters make generated labels "
                 "unique, generated definition names consult the set of used names; (R-STRIDE) jump_length(n) = n * size of the single "
                 "fixed-size jump that jump_label_fixed emits, one table entry per clause; (R-JTORDER) clauses are normalised to "
                 "declaration order, which the tag arithmetic assumes - the normalisation itself happens in the type checker, whose "
-                "checked clause lists of Case and New are built by a loop over the declaration's xtors (R-KEYED); (R-IMM, via the symbolic machine) every immediate, shift and "
+                "checked clause lists of Case and New come out in declaration order whatever order the clauses are written in (R-TYRULE, "
+                "folded over every clause list of up to three clauses); (R-IMM, via the symbolic machine) every immediate, shift and "
                 "memory offset of the arithmetic/compare/move/literal templates fits the instruction form it is printed in, for "
                 "literals of every magnitude in every placement.",
         "assumptions": ["validity of every instruction form as such (beyond immediates/offsets and memory-destination imul) is not decided",
@@ -200,14 +201,14 @@ PROPS = {
         "assumptions": ["behavioural equivalence itself is the conjunction of C02-C06, C13, C14, C20 and of semantic facts not decided statically"],
     },
     "C18": {
-        "rules": [panics.rule_panic(("A", "B")), panics.rule_gact, termination.rule_descent, termination.rule_loops, panics.rule_span, hygiene.rule_fvscope, typing_rules.rule_tywf],
+        "rules": [panics.rule_panic(("A", "B")), panics.rule_gact, termination.rule_descent, termination.rule_loops, panics.rule_span, hygiene.rule_fvscope, typing_rules.rule_tywf, typing_rules.rule_tyrule],
         "text": "Panic-site closure: every panic-capable construct reachable in the resolved whole-workspace call graph from the "
                 "parser, the type checker and every later stage entry point is enumerated and must be an audited row; zone A "
                 "(everything reachable from parse_module/parse_term/Program::check, including all 399 grammar actions) accepts "
                 "only locally discharged rows. Decides 'never panics on user input' for all inputs at once. Termination: R-DESCENT decides that "
                 "every recursion cycle of the pipeline's call graph is a structural descent (each recursive call receives a part of its "
                 "caller's input, or an audited renaming of one), so the recursion depth is bounded by the program; R-LOOP decides that every loop is left through the exhaustion of a finite "
-                "iterator or popped collection (three audited searches excepted). R-SPAN: diagnostic source spans are empty or given by token boundaries, never a constant number of bytes (miette panics when a label ends inside a multi-byte character). Two invariants whose loss ends in a panic of a later stage are checked where they are established: free variables of unfocused Core are collected per binder scope (R-FVSCOPE; otherwise a lifted definition lacks a parameter and code generation fails with `Variable not found`), and a supplied type is checked for well-formedness before a term is checked against it (R-TYWF; otherwise shrinking fails with `Type not found`).",
+                "iterator or popped collection (three audited searches excepted). R-SPAN: diagnostic source spans are empty or given by token boundaries, never a constant number of bytes (miette panics when a label ends inside a multi-byte character). Two invariants whose loss ends in a panic of a later stage are checked where they are established: free variables of unfocused Core are collected per binder scope (R-FVSCOPE; otherwise a lifted definition lacks a parameter and code generation fails with `Variable not found`), and a supplied type is checked for well-formedness before a term is checked against it (R-TYWF; otherwise shrinking fails with `Type not found`); and a match is accepted only with exactly one clause per xtor of its type (R-TYRULE over every clause list of up to three clauses; otherwise the reduction of a known cut fails with `Xtor not found in clauses`).",
         "assumptions": ["lalrpop's generated state machine and third-party crates do not panic",
                         "LOOKUP rows: checked programs are well-scoped (name lookups succeed)",
                         "stack overflow and allocation failure are outside the property ('within stack limits')"],
